@@ -231,6 +231,8 @@ def lift(v):
         return z3.StringVal(v)
     if isinstance(v, SRef):
         return v.t
+    if isinstance(v, PObj) and "__ref__" in v.fields:
+        return v.fields["__ref__"]
     raise Unsupported(f"lift {type(v).__name__}")
 
 
@@ -1029,6 +1031,11 @@ class Executor:
 
     # ================================================================ expressions
     def eval(self, e, env):
+        if self.contract.opaque and not self.in_spec and isinstance(e, (ast.Attribute, ast.Subscript, ast.Call)):
+            k = self.contract.opaque.get(ast.unparse(e))
+            if k is not None:
+                self.notes.add(f"opaque sub-expression abstracted to a fresh {k}: {ast.unparse(e)}")
+                return self.fresh(k, "opaque")
         m = getattr(self, "e_" + type(e).__name__, None)
         if m is None:
             raise Unsupported(f"expression {type(e).__name__} at L{getattr(e, 'lineno', 0)}")
@@ -1339,6 +1346,10 @@ class Executor:
             return z3.Exists([k], z3.And(k >= 0, k < container.ln, z3.Select(container.at, k) == xs))
         elif isinstance(container, _SDictLike):
             return container.contains(self, x)
+        elif isinstance(container, PObj):
+            r = self.call_value(BoundMethod(container, "__contains__"), [x], {}, line)
+            t = self.truth(r)
+            return t
         else:
             raise Unsupported(f"`in` on {type(container).__name__}")
         cs = []
@@ -1674,7 +1685,47 @@ class Executor:
         return Func(e, self.finfo.mod, closure=env)
 
     def e_ListComp(self, e, env):
+        if len(e.generators) == 1 and not e.generators[0].ifs:
+            it = self.eval(e.generators[0].iter, env)
+            if isinstance(it, SList):
+                return self.map_slist(e.elt, e.generators[0].target, it, env)
+            return PList(self.comprehension_from(e.elt, e.generators, env, it))
         return PList(self.comprehension(e.elt, e.generators, env))
+
+    def map_slist(self, elt, target, lst, env):
+        """[elt for target in lst] for a list of symbolic length: a new list defined pointwise (the element
+        expression must be pure and path-insensitive)."""
+        i = z3.Int(fresh_name("mi"))
+        sc = dict(env)
+        self.assign(target, self.list_elem(lst, i), sc)
+        saved = self.in_merge
+        self.in_merge += 1
+        try:
+            try:
+                v = self.eval(elt, sc)
+            except _MergeAbort:
+                raise Unsupported("comprehension element forks on a symbolic list")
+        finally:
+            self.in_merge = saved
+        if isinstance(v, (str, SStr)):
+            kind = "str"
+        elif is_intlike(v) and not isinstance(v, (bool, SBool)):
+            kind = "int"
+        else:
+            raise Unsupported("comprehension element kind")
+        t = lift(v) if kind == "str" else as_int_term(v)
+        new_at = z3.Const(fresh_name("map_at"), z3.ArraySort(Int, sort_of(kind)))
+        self.pc.append(z3.ForAll([i], z3.Implies(z3.And(i >= 0, i < lst.ln), z3.Select(new_at, i) == t)))
+        return SList(lst.ln, new_at, kind)
+
+    def comprehension_from(self, elt, gens, env, first_iter):
+        out = []
+        g = gens[0]
+        for x in self.iter_concrete(first_iter):
+            sc = dict(env)
+            self.assign(g.target, x, sc)
+            out.append(self.eval(elt, sc))
+        return out
 
     def e_GeneratorExp(self, e, env):
         return PList(self.comprehension(e.elt, e.generators, env))
@@ -1756,7 +1807,9 @@ class Executor:
     def call_func(self, f, args, kwargs, line=0, self_obj=None):
         """Call of a repository function: by contract if it has one, else inlined (if allowed)."""
         qual = self.ctx.qual_of(f)
-        c = self.ctx.contract_for_call(qual, self.contract)
+        c = self.ctx.contract_for_call(qual, self.contract, args)
+        if c is not None and c is self.contract and qual not in self.contract.inline:
+            pass  # recursion through the function's own contract is fine (modular)
         if c is not None:
             if c.model is not None:
                 self.used_contracts.add(c.qual)
@@ -1824,7 +1877,7 @@ class Executor:
         node = f.node if f is not None else c.finfo.node
         env = self.bind_params(node, args, kwargs, line)
         env.pop("__closure__", None)
-        self.used_contracts.add(c.qual)
+        self.used_contracts.add(c.key)
         cenv = dict(env)
         for i, pre in enumerate(c.requires):
             self.oblige(f"call@L{line}:{c.short}/pre{i}", self.spec_bool(pre, cenv, c.hints, c), "call-pre", line)
